@@ -20,7 +20,7 @@ StepC == /\ written' = IF Ev.op = "write" /\ ~Ev.raised THEN Append(written, Len
          /\ obs' = Ev.after
          /\ UNCHANGED <<kind, appBuf, file, hdr, nops>>
 \* design mode: the module's own action must explain the observation
-StepD == /\ CASE Ev.op = "write" -> (IF Ev.raised THEN RefusedWrite ELSE Write)
+StepD == /\ CASE Ev.op = "write" -> (IF Ev.raised THEN (RefusedWrite \/ FailedWrite) ELSE Write)
                  [] Ev.op = "flush" -> Flush /\ ~Ev.raised [] Ev.op = "close" -> Close /\ ~Ev.raised [] Ev.op = "exit" -> Exit /\ ~Ev.raised
          /\ (Ev.after.observed => /\ Ev.after.indep_ok = (NeedsHeader(kind) => hdr')
                                    /\ (Ev.after.indep_ok => Ev.after.indep = file'))
